@@ -176,6 +176,34 @@ pub fn run(tier: Tier) -> i32 {
         }
         jobs.push(("literal-count-regional", p));
     }
+    // ---- string arguments that bring markup of their own - a component alone, next to text, around a variable, inside
+    // another one - into a plain target, a target that wraps the argument in a component, and through two hops: the
+    // referencing key is what writing the substituted value by hand would give
+    {
+        let mut p = Project::new(Config::simple("en", &["en", "fr"]));
+        for l in ["en", "fr"] {
+            let args: Vec<(&str, Vec<Seg>)> = vec![
+                ("only", vec![comp("b", vec![text("hello")])]),
+                ("text", vec![text("dear "), comp("b", vec![text("hello")]), text(" you")]),
+                ("var", vec![comp("b", vec![var("name")])]),
+                ("nested", vec![comp("b", vec![comp("i", vec![text("deep")])])]),
+                ("selfclosed", vec![text("a"), comp("br", vec![]), text("b")]),
+                ("plain", vec![text("plain words")]),
+            ];
+            let mut e = vec![
+                ("target".to_string(), s(vec![text(&format!("[{l}] say ")), var("what"), text(" now")])),
+                ("wrapped".to_string(), s(vec![text(&format!("[{l}] ")), comp("u", vec![var("what")]), text(" end")])),
+                ("hop".to_string(), s(vec![text("<"), fk_args("target", vec![("what", FkArg::Str(vec![var("inner")]))]), text(">")])),
+            ];
+            for (n, a) in &args {
+                e.push((format!("t_{n}"), s(vec![fk_args("target", vec![("what", FkArg::Str(a.clone()))])])));
+                e.push((format!("w_{n}"), s(vec![text("x "), fk_args("wrapped", vec![("what", FkArg::Str(a.clone()))])])));
+                e.push((format!("h_{n}"), s(vec![fk_args("hop", vec![("inner", FkArg::Str(a.clone()))])])));
+            }
+            p.set_file(None, l, e);
+        }
+        jobs.push(("markup-arguments", p));
+    }
 
     // ---- namespaces: referencing key and target in the same / another namespace ------------------------
     for rt in tuples(REFS.len(), 2) {
@@ -239,7 +267,7 @@ pub fn run(tier: Tier) -> i32 {
         }
     }
     let mut cov = serde_json::Map::new();
-    cov.insert("rule".into(), json!(format!("chains k0 -> .. -> leaf of depth <= {max_depth}: every tuple over 18 referencing forms (whole range branch / plural form, literal float count, whole value, mid text, inside component, string/number/bool/renaming/nested-$t argument, literal count 1 and 0, renamed count, unknown argument, inside range branch, inside plural form, two references) x 10 target kinds (text, interpolation, component, range, plural, number, plain `{{{{count}}}}` variable, the empty string, a float range, formatted variables) x every assignment of key names (all permutations for depth<=2); special targets (subkey path, subkey group, missing, self, path through a value, a dangling middle segment whose tail exists one level up, a namespace prefix in a project without namespaces); all digraphs on <=3 nodes where each node is text, $t(j) or $t(j,{{x:$t(k)}}) (cycles included); 4-locale projects (plain, explicit-null target, inheriting locale with null target) for depth <= {loc_depth}; two-namespace layouts for depth 2; literal counts 0..=4 and 0.5 / 1.0 / 1.5 on cardinal and ordinal plurals in pt / pt-PT / en-GB / fr-CA projects (regional rules); every inherits map x target presence x referencing-key state over 4 locales; each accepted project: every key in every locale rendered under boundary counts against the substitution model; each rejected project: Err whose message names a key")));
+    cov.insert("rule".into(), json!(format!("chains k0 -> .. -> leaf of depth <= {max_depth}: every tuple over 18 referencing forms (whole range branch / plural form, literal float count, whole value, mid text, inside component, string/number/bool/renaming/nested-$t argument, literal count 1 and 0, renamed count, unknown argument, inside range branch, inside plural form, two references) x 10 target kinds (text, interpolation, component, range, plural, number, plain `{{{{count}}}}` variable, the empty string, a float range, formatted variables) x every assignment of key names (all permutations for depth<=2); special targets (subkey path, subkey group, missing, self, path through a value, a dangling middle segment whose tail exists one level up, a namespace prefix in a project without namespaces); all digraphs on <=3 nodes where each node is text, $t(j) or $t(j,{{x:$t(k)}}) (cycles included); 4-locale projects (plain, explicit-null target, inheriting locale with null target) for depth <= {loc_depth}; two-namespace layouts for depth 2; string arguments holding markup (a component alone, next to text, around a variable, nested, self-closed) into a plain target, a wrapping target and through two hops; literal counts 0..=4 and 0.5 / 1.0 / 1.5 on cardinal and ordinal plurals in pt / pt-PT / en-GB / fr-CA projects (regional rules); every inherits map x target presence x referencing-key state over 4 locales; each accepted project: every key in every locale rendered under boundary counts against the substitution model; each rejected project: Err whose message names a key")));
     cov.insert("exhaustive".into(), json!(true));
     cov.insert("outcome_classes".into(), json!(*classes.lock().unwrap()));
     cov.insert("key_locale_comparisons".into(), json!(*keys_total.lock().unwrap()));
